@@ -142,15 +142,59 @@ def check_walk_order(r, top_down):
     return True
 
 
+SPELLINGS = ('dslash', 'dot', 'dotdot', 'trail', 'updown', 'lead')
+
+
+def spell(seed, salt, path):
+    """Another spelling of the absolute normalised ``path`` with the same os.path.abspath (metamorphic relation: the
+    library documents that every filename is taken as ``os.path.abspath(os.fsdecode(filename))``, so a spelling must
+    change nothing).  A pure function of (seed, salt, path): no counters, so thread schedules cannot shift it.
+    ``dotdot`` steps through a component that does not exist, which the operating system itself would refuse."""
+    if not seed or not isinstance(path, str) or path.count('/') < 2:
+        return path
+    h = int(hashlib.sha256(('%s|%s|%s' % (seed, salt, path)).encode()).hexdigest()[:8], 16)
+    if h % 5 < 2:
+        return path
+    k = SPELLINGS[(h // 5) % len(SPELLINGS)]
+    d, base = path.rsplit('/', 1)
+    if k == 'dslash':
+        return d + '//' + base
+    if k == 'dot':
+        return d + '/./' + base
+    if k == 'dotdot':
+        return d + '/zz-none/../' + base
+    if k == 'trail':
+        return path + '/'
+    if k == 'updown':
+        return path + '/../' + base
+    return '/.' + path          # lead
+
+
+def spelled(ctx, salt, path):
+    if ctx.mode != 'real':
+        return path
+    return spell(ctx.prog.get('spell'), salt, path)
+
+
 def do_query(ctx, b, kind, path, cmp):
     """Issue one query on builder b; returns the normalised, JSON-able answer ('!Class' on OSError)."""
+    npath = path
+    path = spelled(ctx, kind, npath)
     try:
+        return _do_query(ctx, b, kind, path, cmp, npath)
+    except OSError as e:
+        return '!' + exc_class(e)
+
+
+def _do_query(ctx, b, kind, path, cmp, npath):
+    if True:
         if kind in ('exists', 'is_file', 'is_dir', 'list_dir'):
             r = getattr(b, kind)(path)
             if kind == 'list_dir':
                 r = list(r)
         elif kind == 'get_size':
             r = b.get_size(path)
+            path = npath
             if ctx.mode == 'real' and os.path.isdir(path):
                 r = 'DIR'
         elif kind == 'walk':
@@ -167,6 +211,7 @@ def do_query(ctx, b, kind, path, cmp):
             else:
                 from file_builder import FileComparison
                 r = getattr(b, kind)(path, FileComparison[cmp])
+                path = npath
                 if kind == 'declare_read':
                     with open(path, 'rb') as f:
                         r = f.read()
@@ -178,9 +223,7 @@ def do_query(ctx, b, kind, path, cmp):
             r = r.decode('latin1')
         else:
             raise ValueError(kind)
-        return norm_answer(ctx, kind, path, r)
-    except OSError as e:
-        return '!' + exc_class(e)
+        return norm_answer(ctx, kind, npath, r)
 
 
 def run_block(ctx, b, inv, fname, args, stmts, obs, filename):
@@ -312,9 +355,9 @@ def _run_call_inner(ctx, b, s, obs, op, path, fn, a, kw, catch, cmp, n0, dup, in
                 c = FileComparison[cmp]
             if ctx.mode == 'real' and cmp == 'METADATA' and (sum(map(ord, fn)) + len(path)) % 2 == 0:
                 # the convenience wrapper (METADATA is its default comparison); the choice is a function of the call
-                r = b.build_file(path, fn, make_func(ctx, fn, path), *a, **kw)
+                r = b.build_file(spelled(ctx, 'bf', path), fn, make_func(ctx, fn, path), *a, **kw)
             else:
-                r = b.build_file_with_comparison(path, c, fn, make_func(ctx, fn, path), *a, **kw)
+                r = b.build_file_with_comparison(spelled(ctx, 'bf', path), c, fn, make_func(ctx, fn, path), *a, **kw)
             if ctx.mode == 'real':
                 ctx.calls.append((path, 'ok'))
                 post_bf_check(ctx, path, True, None, False)
@@ -457,7 +500,8 @@ def bind_program(prog, ap):
     return {'root': conv(prog['root']),
             'alt_roots': [conv(r) for r in prog.get('alt_roots', [])],
             'funcs': {k: {'kind': v['kind'], 'body': conv(v['body'])} for k, v in prog['funcs'].items()},
-            'universe': list(prog.get('universe', []))}
+            'universe': list(prog.get('universe', [])),
+            'spell': prog.get('spell', 0)}
 
 
 BIND_EXT = {}
